@@ -8,11 +8,19 @@
  * of same-bytes symbols and the invariants of janet_vm.cache.
  *
  * Linked against the variant's libjanet.a; state.h gives janet_vm. */
+/* the sweep's call of janet_symbol_deinit goes through a logging wrapper (symhist mode: the order in which the collector
+ * frees symbols is part of the history the model replays) */
+#define janet_symbol_deinit c03_real_symbol_deinit
 #include "symcache.c"   /* wrapper TU (resolved through -iquote <scratch tree>/src/core): gives JANET_SYMCACHE_DELETED; must come first */
+#undef janet_symbol_deinit
+static void c03_note_deinit(const uint8_t *sym);
+void janet_symbol_deinit(const uint8_t *sym);
+void janet_symbol_deinit(const uint8_t *sym) { c03_note_deinit(sym); c03_real_symbol_deinit(sym); }
 #include <stdio.h>
 #include <stdlib.h>
 #include <string.h>
 #include <inttypes.h>
+#include <stdarg.h>
 
 /* janet_collect() dereferences janet_vm.root_fiber, which is NULL outside janet_continue: collect from inside a fiber */
 static JanetTable *g_env;
@@ -368,6 +376,37 @@ static void cache_check(long round, const char *when) {
 
 typedef struct { char *name; const uint8_t *ptr; int rooted; int kw; } Kept;
 
+static long wrapnames, lastbucket, preinterned, gensyms, gensym_skips;
+
+/* the harness's own successor function on gensym counters (digits 0-9 a-z A-Z, most significant first after the `_`);
+ * written from the documented format, not copied from inc_gensym */
+static void c03_inc(uint8_t *ctr) {
+    static const char digits[] = "0123456789abcdefghijklmnopqrstuvwxyzABCDEFGHIJKLMNOPQRSTUVWXYZ";
+    for (int i = 6; i >= 1; i--) {
+        const char *q = strchr(digits, ctr[i]);
+        int v = q ? (int)(q - digits) : 0;
+        if (v < 61) { ctr[i] = (uint8_t) digits[v + 1]; return; }
+        ctr[i] = '0';
+    }
+}
+
+/* a gensym result: interning its bytes gives the same object; no rooted symbol has the same bytes at another address;
+ * with any rooted symbol, `=` and compare agree */
+static void check_gensym(const uint8_t *g, Kept *kept, size_t nk, long round) {
+    int32_t len = janet_string_length(g);
+    for (size_t q = 0; q < nk; q++) {
+        if (!kept[q].rooted || (int32_t) strlen(kept[q].name) != len || memcmp(kept[q].name, g, len)) continue;
+        if (kept[q].ptr != g) {
+            law("gensym-duplicates-live-symbol", round, (long) q, -1, kept[q].name);
+            Janet a = kept[q].kw ? janet_wrap_keyword(kept[q].ptr) : janet_wrap_symbol(kept[q].ptr), b = janet_wrap_symbol(g);
+            if (!kept[q].kw && !janet_equals(a, b) && janet_compare(a, b) == 0) law("compare-zero-iff-equals", round, (long) q, -1, kept[q].name);
+            if (!kept[q].kw && !janet_equals(a, b) && janet_hash(a) == janet_hash(b) && janet_string_equal(kept[q].ptr, g))
+                law("symbol-identity", round, (long) q, -1, kept[q].name);
+        } else law("gensym-returns-live-symbol", round, (long) q, -1, kept[q].name);
+    }
+    if (janet_symbol(g, len) != g) law("gensym-not-interned", round, -1, -1, (const char *) g);
+}
+
 static int run_symcache(uint64_t seed, int rounds, int n) {
     sm_state = seed;
     JanetTable *env = g_env = janet_core_env(NULL);
@@ -395,6 +434,68 @@ static int run_symcache(uint64_t seed, int rounds, int n) {
             }
             if (janet_vm.cache_capacity != lastcap) { resizes++; lastcap = janet_vm.cache_capacity; }
         }
+        /* ---- engineered collisions: names whose home bucket (for the capacity the cache has NOW) is the last bucket, the one
+         * before it, bucket 0 or a random one, so that probe chains run through the end of the array and wrap to the front;
+         * the first name of a group is usually left unrooted (it is swept, leaving a hole / tombstone in front of the others) */
+        for (int grp = 0; grp < 6; grp++) {
+            uint32_t cap = janet_vm.cache_capacity;
+            uint32_t pick = (uint32_t)(sm_next() % 4);
+            uint32_t target = pick == 0 || pick == 1 ? cap - 1 : pick == 2 ? cap - 2 : (uint32_t)(sm_next() % cap);
+            int want = 2 + (int)(sm_next() % 3), got = 0;
+            for (uint32_t tries = 0; tries < 40 * cap && got < want; tries++) {
+                char buf[64];
+                snprintf(buf, sizeof buf, "c03w%d-%d-%u", r, grp, tries);
+                uint32_t home = (uint32_t) janet_string_calchash((const uint8_t *) buf, (int32_t) strlen(buf)) & (cap - 1);
+                if (home != target && !(got > 0 && home == ((target + 1) & (cap - 1)) && sm_next() % 4 == 0)) continue;
+                int kw = (int)(sm_next() & 1);
+                const uint8_t *p = kw ? janet_ckeyword(buf) : janet_csymbol(buf);
+                wrapnames++;
+                if (janet_vm.cache[cap - 1] == p && janet_vm.cache_capacity == cap) lastbucket++;
+                if (got > 0 ? sm_next() % 4 != 0 : sm_next() % 4 == 0) {
+                    if (nk == capk) { capk = capk ? 2 * capk : 1024; kept = realloc(kept, capk * sizeof(Kept)); }
+                    kept[nk].name = strdup(buf); kept[nk].ptr = p; kept[nk].rooted = 1; kept[nk].kw = kw;
+                    janet_gcroot(kw ? janet_wrap_keyword(p) : janet_wrap_symbol(p));
+                    nk++;
+                }
+                got++;
+            }
+        }
+        /* ---- gensym: some of the names that FOLLOW the counter are interned by other means (symbol / keyword: one cache) before
+         * gensym gets there; every gensym result must be a symbol whose bytes no live symbol has */
+        for (int grp = 0; grp < 4; grp++) {
+            uint8_t ctr[8];
+            memcpy(ctr, janet_vm.gensym_counter, 8);
+            int skip = (int)(sm_next() % 3), ahead = (int)(sm_next() % 5);
+            for (int j = 0; j < skip; j++) c03_inc(ctr);
+            for (int j = 0; j < ahead; j++) {
+                c03_inc(ctr);
+                char buf[8]; memcpy(buf, ctr, 7); buf[7] = 0;
+                int kw = (int)(sm_next() % 3 == 0);
+                const uint8_t *p = kw ? janet_ckeyword(buf) : janet_csymbol(buf);
+                preinterned++;
+                if (sm_next() % 4) {
+                    if (nk == capk) { capk = capk ? 2 * capk : 1024; kept = realloc(kept, capk * sizeof(Kept)); }
+                    kept[nk].name = strdup(buf); kept[nk].ptr = p; kept[nk].rooted = 1; kept[nk].kw = kw;
+                    janet_gcroot(kw ? janet_wrap_keyword(p) : janet_wrap_symbol(p));
+                    nk++;
+                }
+            }
+            int ng = 1 + (int)(sm_next() % 4);
+            for (int j = 0; j < ng; j++) {
+                uint8_t before[8]; memcpy(before, janet_vm.gensym_counter, 8);
+                const uint8_t *g = janet_symbol_gen();
+                gensyms++;
+                c03_inc(before);   /* the usual case: exactly one step (the previous result is still alive); more = it skipped names */
+                if (memcmp(before, janet_vm.gensym_counter, 7) && j > 0) gensym_skips++;
+                check_gensym(g, kept, nk, r);
+                if (sm_next() % 2) {
+                    if (nk == capk) { capk = capk ? 2 * capk : 1024; kept = realloc(kept, capk * sizeof(Kept)); }
+                    kept[nk].name = strdup((const char *) g); kept[nk].ptr = g; kept[nk].rooted = 1; kept[nk].kw = 0;
+                    janet_gcroot(janet_wrap_symbol(g));
+                    nk++;
+                }
+            }
+        }
         cache_check(r, "after-intern");
         collect();                           /* unkept symbols die: tombstones */
         cache_check(r, "after-collect");
@@ -421,8 +522,9 @@ static int run_symcache(uint64_t seed, int rounds, int n) {
                 /* the same name may still be rooted through another kept entry; then it stays alive, which is fine */
             }
     }
-    printf("summary symcache rounds %d per_round %d lookups %ld moved_into_tombstone %ld max_tombstones %ld resizes %ld capacity %u live %ld violations %ld\n",
-           rounds, n, lookups, moved, maxdead, resizes, janet_vm.cache_capacity, cache_live, nviol);
+    printf("summary symcache rounds %d per_round %d lookups %ld moved_into_tombstone %ld max_tombstones %ld resizes %ld capacity %u live %ld "
+           "engineered_wrap_names %ld placed_in_last_bucket %ld gensyms %ld gensym_format_names_preinterned %ld gensyms_that_skipped %ld violations %ld\n",
+           rounds, n, lookups, moved, maxdead, resizes, janet_vm.cache_capacity, cache_live, wrapnames, lastbucket, gensyms, preinterned, gensym_skips, nviol);
     return 0;
 }
 
@@ -702,11 +804,185 @@ static int run_dups(uint64_t seed, int ncases, int nmodel) {
     return 0;
 }
 
+/* ------------------------------------------------------------------------------------------------------------------
+ * symbol cache histories on a FRESH VM (no core environment: the cache starts empty at its initial capacity), replayed by
+ * the Lean model (Value/SymCache.lean + SymGen.lean): janet_symbol / janet_keyword, janet_symbol_gen, and real collections
+ * (janet_collect; the order in which the sweep calls janet_symbol_deinit is logged by the wrapper at the top of this file).
+ * After every collection and at the end the whole of janet_vm.cache, the counters and the gensym counter are dumped.
+ * Names are engineered with the real hash: home buckets at the end of the array (wrap-around), shared homes, names that
+ * follow the gensym counter. */
+static int hist_logging;
+static char *hbuf_ops, *hbuf_res; static size_t hlen_ops, hlen_res, hcap_ops, hcap_res;
+static void happend(char **buf, size_t *len, size_t *cap, const char *fmt, ...) {
+    va_list ap; char tmp[256];
+    va_start(ap, fmt); int n = vsnprintf(tmp, sizeof tmp, fmt, ap); va_end(ap);
+    if (*len + (size_t) n + 2 > *cap) { *cap = (*cap ? *cap * 2 : 1 << 16) + (size_t) n; *buf = realloc(*buf, *cap); }
+    memcpy(*buf + *len, tmp, (size_t) n); *len += (size_t) n; (*buf)[*len] = 0;
+}
+#define HOPS(...) happend(&hbuf_ops, &hlen_ops, &hcap_ops, __VA_ARGS__)
+#define HRES(...) happend(&hbuf_res, &hlen_res, &hcap_res, __VA_ARGS__)
+static void hexname(char *out, const uint8_t *p, int32_t n) { for (int32_t i = 0; i < n; i++) sprintf(out + 2 * i, "%02x", p[i]); out[2 * n] = 0; }
+static void c03_note_deinit(const uint8_t *sym) {
+    if (!hist_logging) return;
+    char hx[160]; int32_t n = janet_string_length(sym);
+    if (n > 70) n = 70;
+    hexname(hx, sym, n);
+    HOPS(" D%s", hx); HRES(" d");
+}
+static void hist_dump(void) {
+    char hx[32]; hexname(hx, janet_vm.gensym_counter, 7);
+    HOPS(" X"); HRES(" x%u,%u,%u,%s", janet_vm.cache_capacity, janet_vm.cache_count, janet_vm.cache_deleted, hx);
+    for (uint32_t i = 0; i < janet_vm.cache_capacity; i++) {
+        const uint8_t *p = janet_vm.cache[i];
+        if (!p) continue;
+        if (p == JANET_SYMCACHE_DELETED) { HRES(",%u:-", i); continue; }
+        char h2[160]; int32_t n = janet_string_length(p); if (n > 70) n = 70;
+        hexname(h2, p, n);
+        HRES(",%u:%s", i, h2);
+    }
+}
+
+static int run_symhist(uint64_t seed, int nhist, int nops) {
+    sm_state = seed;
+    long tot_ops = 0, tot_intern = 0, tot_gensym = 0, tot_collect = 0, tot_deinit = 0, tot_resize = 0, tot_last = 0, tot_lookup = 0, tot_skip = 0, mincap = 1 << 30, maxcap = 0;
+    for (int h = 0; h < nhist; h++) {
+        hist_logging = 0;
+        janet_deinit(); janet_init();
+        hlen_ops = hlen_res = 0;
+        Kept *kept = NULL; size_t nk = 0, capk = 0;
+        uint32_t lastcap = janet_vm.cache_capacity;
+        hist_logging = 1;
+        /* a history has a bias: mostly last-bucket collisions / mostly gensym / mass interning with shrinking resizes / mixed */
+        int bias = (int)(sm_next() % 4);
+        int serial = 0, massdone = 0;
+        for (int k = 0; k < nops; k++) {
+            uint32_t cap = janet_vm.cache_capacity;
+            uint64_t roll = sm_next() % 100;
+            char buf[80]; buf[0] = 0;
+            int what;   /* 0 intern engineered, 1 intern ahead of the counter, 2 gensym, 3 lookup kept, 4 unroot, 5 collect, 6 mass */
+            if (bias == 0) what = roll < 45 ? 0 : roll < 50 ? 1 : roll < 58 ? 2 : roll < 72 ? 3 : roll < 86 ? 4 : roll < 98 ? 5 : 6;
+            else if (bias == 1) what = roll < 15 ? 0 : roll < 40 ? 1 : roll < 70 ? 2 : roll < 78 ? 3 : roll < 90 ? 4 : roll < 99 ? 5 : 6;
+            else if (bias == 2) what = roll < 30 ? 0 : roll < 35 ? 1 : roll < 42 ? 2 : roll < 52 ? 3 : roll < 70 ? 4 : roll < 84 ? 5 : 6;
+            else what = roll < 30 ? 0 : roll < 42 ? 1 : roll < 58 ? 2 : roll < 70 ? 3 : roll < 84 ? 4 : roll < 97 ? 5 : 6;
+            tot_ops++;
+            if (what == 0 || what == 1) {
+                if (what == 0) {
+                    uint32_t pick = (uint32_t)(sm_next() % 8);
+                    uint32_t target = pick < 4 ? cap - 1 : pick == 4 ? cap - 2 : pick == 5 ? 0 : (uint32_t)(sm_next() % (cap < 8 ? cap : 8));
+                    for (uint32_t tries = 0; tries < 60 * cap; tries++) {
+                        snprintf(buf, sizeof buf, "h%d-%d", h % 7, serial++);
+                        if (((uint32_t) janet_string_calchash((const uint8_t *) buf, (int32_t) strlen(buf)) & (cap - 1)) == target) break;
+                    }
+                } else {
+                    uint8_t ctr[8]; memcpy(ctr, janet_vm.gensym_counter, 8);
+                    int ahead = 1 + (int)(sm_next() % 3);
+                    for (int j = 0; j < ahead; j++) c03_inc(ctr);
+                    memcpy(buf, ctr, 7); buf[7] = 0;
+                }
+                int kw = (int)(sm_next() % 3 == 0);
+                size_t before = janet_vm.block_count;
+                const uint8_t *p = kw ? janet_ckeyword(buf) : janet_csymbol(buf);
+                int isnew = janet_vm.block_count != before;
+                char hx[170]; hexname(hx, (const uint8_t *) buf, (int32_t) strlen(buf));
+                HOPS(" I%s", hx); HRES(" %c", isnew ? 'n' : 'o');
+                tot_intern++;
+                if (janet_vm.cache_capacity == cap && janet_vm.cache[cap - 1] == p && isnew) tot_last++;
+                for (size_t q = 0; q < nk; q++)
+                    if (kept[q].rooted && !strcmp(kept[q].name, buf) && kept[q].ptr != p) law("symbol-duplicate-live", h, k, (long) q, buf);
+                if (sm_next() % 100 < (what == 0 ? 55 : 75)) {
+                    if (nk == capk) { capk = capk ? 2 * capk : 256; kept = realloc(kept, capk * sizeof(Kept)); }
+                    kept[nk].name = strdup(buf); kept[nk].ptr = p; kept[nk].rooted = 1; kept[nk].kw = kw;
+                    janet_gcroot(kw ? janet_wrap_keyword(p) : janet_wrap_symbol(p));
+                    nk++;
+                }
+            } else if (what == 2) {
+                uint8_t before[8]; memcpy(before, janet_vm.gensym_counter, 8);
+                const uint8_t *g = janet_symbol_gen();
+                char hx[32]; hexname(hx, g, janet_string_length(g));
+                HOPS(" G"); HRES(" g%s", hx);
+                tot_gensym++;
+                c03_inc(before);
+                if (memcmp(before, janet_vm.gensym_counter, 7) && memcmp(g, "_000000", 7)) tot_skip++;
+                check_gensym(g, kept, nk, h);
+                HOPS(" I%s", hx); HRES(" o");          /* check_gensym interned the bytes again */
+                if (sm_next() % 100 < 60) {
+                    if (nk == capk) { capk = capk ? 2 * capk : 256; kept = realloc(kept, capk * sizeof(Kept)); }
+                    kept[nk].name = strdup((const char *) g); kept[nk].ptr = g; kept[nk].rooted = 1; kept[nk].kw = 0;
+                    janet_gcroot(janet_wrap_symbol(g));
+                    nk++;
+                }
+            } else if (what == 3 && nk) {
+                size_t q = (size_t)(sm_next() % nk);
+                if (!kept[q].rooted) continue;
+                size_t before = janet_vm.block_count;
+                const uint8_t *p = janet_symbol((const uint8_t *) kept[q].name, (int32_t) strlen(kept[q].name));
+                char hx[170]; hexname(hx, (const uint8_t *) kept[q].name, (int32_t) strlen(kept[q].name));
+                HOPS(" I%s", hx); HRES(" %c", janet_vm.block_count != before ? 'n' : 'o');
+                tot_lookup++;
+                if (p != kept[q].ptr) law("symbol-duplicate-after-collect", h, k, (long) q, kept[q].name);
+            } else if (what == 4 && nk) {
+                size_t q = (size_t)(sm_next() % nk);
+                if (!kept[q].rooted) continue;
+                janet_gcunroot(kept[q].kw ? janet_wrap_keyword(kept[q].ptr) : janet_wrap_symbol(kept[q].ptr));
+                kept[q].rooted = 0;
+                /* the same object may be rooted through another kept entry: then that entry keeps it alive */
+            } else if (what == 5) {
+                janet_collect();
+                tot_collect++;
+                hist_dump();
+                cache_check(h, "symhist-after-collect");
+                /* every rooted name must still be found at its address */
+                for (size_t q = 0; q < nk; q++) {
+                    if (!kept[q].rooted) continue;
+                    int found = 0;
+                    for (uint32_t i = 0; i < janet_vm.cache_capacity; i++) if (janet_vm.cache[i] == kept[q].ptr) { found = 1; break; }
+                    if (!found) law("symcache-lost-live-symbol", h, k, (long) q, kept[q].name);
+                }
+            } else if (what == 6) {
+                /* mass interning of unrooted names: growth; the next collection leaves mostly tombstones, the next put shrinks */
+                if (bias < 2 || massdone >= 2) continue;
+                massdone++;
+                int m = 150 + (int)(sm_next() % 500);
+                for (int j = 0; j < m; j++) {
+                    snprintf(buf, sizeof buf, "m%d-%d", h % 5, serial++);
+                    size_t before = janet_vm.block_count;
+                    const uint8_t *p = janet_csymbol(buf);
+                    char hx[170]; hexname(hx, (const uint8_t *) buf, (int32_t) strlen(buf));
+                    HOPS(" I%s", hx); HRES(" %c", janet_vm.block_count != before ? 'n' : 'o');
+                    tot_intern++;
+                    if (j % 97 == 0) {
+                        if (nk == capk) { capk = capk ? 2 * capk : 256; kept = realloc(kept, capk * sizeof(Kept)); }
+                        kept[nk].name = strdup(buf); kept[nk].ptr = p; kept[nk].rooted = 1; kept[nk].kw = 0;
+                        janet_gcroot(janet_wrap_symbol(p));
+                        nk++;
+                    }
+                }
+            }
+            if (janet_vm.cache_capacity != lastcap) { tot_resize++; lastcap = janet_vm.cache_capacity; }
+            if ((long) lastcap < mincap) mincap = lastcap;
+            if ((long) lastcap > maxcap) maxcap = lastcap;
+        }
+        hist_dump();
+        cache_check(h, "symhist-end");
+        hist_logging = 0;
+        for (char *q = hbuf_ops; *q; q++) if (*q == 'D') tot_deinit++;
+        printf("hops %d%s\n", h, hbuf_ops);
+        printf("hres %d%s\n", h, hbuf_res);
+        for (size_t q = 0; q < nk; q++) free(kept[q].name);
+        free(kept);
+    }
+    printf("summary symhist histories %d ops %ld interns %ld lookups_of_rooted %ld gensyms %ld gensyms_that_skipped %ld collections %ld symbols_swept %ld "
+           "resizes %ld min_capacity %ld max_capacity %ld new_symbols_placed_in_last_bucket %ld violations %ld\n",
+           nhist, tot_ops, tot_intern, tot_lookup, tot_gensym, tot_skip, tot_collect, tot_deinit, tot_resize, mincap, maxcap, tot_last, nviol);
+    return 0;
+}
+
 int main(int argc, char **argv) {
     janet_init();
     int rc;
     if (argc >= 3 && !strcmp(argv[1], "pool")) rc = run_pool(argv[2]);
     else if (argc >= 5 && !strcmp(argv[1], "symcache")) rc = run_symcache(strtoull(argv[2], NULL, 10), atoi(argv[3]), atoi(argv[4]));
+    else if (argc >= 5 && !strcmp(argv[1], "symhist")) rc = run_symhist(strtoull(argv[2], NULL, 10), atoi(argv[3]), atoi(argv[4]));
     else if (argc >= 5 && !strcmp(argv[1], "dups")) rc = run_dups(strtoull(argv[2], NULL, 10), atoi(argv[3]), atoi(argv[4]));
     else if (argc >= 6 && !strcmp(argv[1], "layout")) rc = run_layout(strtoull(argv[2], NULL, 10), atoi(argv[3]), atoi(argv[4]), atoi(argv[5]));
     else { printf("usage: pool <script> | symcache <seed> <rounds> <n> | layout <seed> <sets> <maxperm> <nmodel> | dups <seed> <cases> <nmodel>\n"); rc = 2; }
